@@ -1,6 +1,6 @@
 """C04 — unweighted sketches have set semantics (structural clauses)."""
 from .. import hirq, nf, slicer
-from ..rulelib import (check_seeds, check_roots, tree_of, slicer_of, user_nodes, writes_to_self, self_method_calls,
+from ..rulelib import (def_exprs, for_loops, check_seeds, check_roots, tree_of, slicer_of, user_nodes, writes_to_self, self_method_calls,
                        hir_dominates, loop_exits, mutating_self_calls, unconditional_within, while_body, short, resolver_of)
 
 SMH = "superminhasher::SuperMinHash::<F, T, H>::"
@@ -93,10 +93,18 @@ def _smh(ctx, facts):
     return n
 
 
-def draw_counter(fn):
-    """name of the draw counter: the local compared with self.a_upper in the guard of the top-level while loop"""
+def _draw_loops(fn):
+    """top-level loops that can be the draw loop: while/loop, or a `for` over an integer range"""
     t = tree_of(fn)
-    for lp in [x for x in t.nodes if x["k"] == "Loop" and x["src"] in ("While", "Loop") and not t.enclosing_loops(x)]:
+    return [x for x in t.nodes if x["k"] == "Loop" and x["src"] in ("While", "Loop", "ForLoop") and not t.enclosing_loops(x)
+            and not hirq.in_log_macro(x)]
+
+
+def draw_counter(fn):
+    """name of the draw counter: the local compared with self.a_upper in the guard (or in a leading break) of the top-level
+    draw loop; it may be a mutable local of a while loop or the variable of a `for` over a range"""
+    t = tree_of(fn)
+    for lp in _draw_loops(fn):
         for (kind, node) in loop_exits(fn, lp):
             if kind in ("guard", "break"):
                 for c in nf.all_conditions(t, node, stop=lp):
@@ -275,7 +283,8 @@ def _histo(ctx, facts, fid, kind):
     if t.parent.get(id(inc)) is not blk:
         ctx.violation("HISTO", fid, "histogram updates split", hirq.loc(inc), "the decrement of the old level and the increment of the new level are not in the same block")
         return
-    old, new = nf.nf(di[0], True, res=R), nf.nf(ii[0], True, res=R)
+    # the old level as it was computed (its ordering w.r.t. the register write is decided below)
+    old, new = nf.nf_def(di[0], R), nf.nf(ii[0], True, res=R)
     old_shown = nf.nf(di[0], True)
     conds = nf.all_conditions(t, dec, res=R)
     ok = new == J
@@ -289,7 +298,8 @@ def _histo(ctx, facts, fid, kind):
         defn = []
         if d0["k"] == "Path" and "local" in d0["res"]:
             defn = [n for n in user_nodes(fn) if n["k"] == "Let" and n["pat"]["k"] == "Bind" and n["pat"]["id"] == d0["res"]["local"]]
-        ok = ok and old in want and bool(regw) and bool(defn) and hir_dominates(t, defn[0], regw[0]) and nf.has_cmp(conds, J, ("<",), old) is not None
+        ok = ok and old in want and bool(regw) and bool(defn) and hir_dominates(t, defn[0], regw[0]) and \
+            (nf.has_cmp(conds, J, ("<",), old) is not None or nf.has_cmp(conds, J, ("<",), old_shown) is not None)
         msg = "old level `%s` must be min(hsketch[p[%s]] as usize, m-1) read BEFORE the register is overwritten, and the move guarded by %s < old level" % (old_shown, J, J)
     else:
         # old level is l[k]; l[k] = j must come after the decrement in the same block
@@ -321,15 +331,60 @@ def _histo(ctx, facts, fid, kind):
         ctx.violation("HISTO", fid, "a_upper update", hirq.loc(aws[0]) if aws else where, "a_upper must be lowered by `while self.b[self.a_upper] == 0 { self.a_upper -= 1 }` directly after the histogram move and written nowhere else in sketch (%d write(s) found)" % len(aws))
 
 
+def counter_step(ctx, facts, fid):
+    """STEP: the draw counter starts at 0 and advances by exactly one per iteration of the draw loop, on every path to the next
+    iteration (or it is the variable of `for j in 0..N`)"""
+    fn = facts.fn(fid)
+    t = tree_of(fn)
+    J = draw_counter(fn)
+    loops = [l for l in _draw_loops(fn) if any(c[0] == "cmp" and c[1] == "self.a_upper" and c[3] == J for (k_, nd) in loop_exits(fn, l)
+                                                for c in nf.all_conditions(t, nd, stop=l))]
+    if len(loops) != 1:
+        return       # EXIT reports this
+    loop = loops[0]
+    fl = [f for f in for_loops(fn) if f["loop"] is loop]
+    if fl:
+        rng = nf.nf(fl[0]["iter"], True, res=resolver_of(fn))
+        if hirq.show_pat(fl[0]["pat"]) == J and rng.startswith("std::ops::Range{start:0, "):
+            ctx.ok("STEP", fid, "draw counter %s is the variable of a `for` over 0..N" % J, hirq.loc(loop))
+        else:
+            ctx.violation("STEP", fid, "draw counter range", hirq.loc(loop), "the draw counter must run over 0, 1, 2, ...; the loop iterates `%s`" % rng[:80])
+        return
+    defs = def_exprs(fn, J)
+    lets = [n for n in user_nodes(fn) if n["k"] == "Let" and n["pat"]["k"] == "Bind" and n["pat"]["name"] == J and "init" in n]
+    incs = [d for d in defs if d["k"] == "AssignOp"]
+    body = while_body(loop)
+    good = len(lets) == 1 and nf.nf(lets[0]["init"], True) == "0" and not t.contains(loop, lets[0]) and len(defs) == 2 and len(incs) == 1 \
+        and incs[0]["op"] == "+=" and nf.nf(incs[0]["r"], True) == "1" and body["k"] == "Block" and any(st is incs[0] for st in body["stmts"])
+    skips = [x for x in user_nodes(fn) if x["k"] == "Continue" and t.contains(loop, x) and x.get("target", loop["id"]) == loop["id"]
+             and not (incs and hir_dominates(t, incs[0], x))]
+    # uses of the counter after the increment in the same iteration would see j+1
+    late = []
+    if good:
+        pos = body["stmts"].index(incs[0])
+        for st in body["stmts"][pos + 1:] + ([body["expr"]] if "expr" in body else []):
+            late += [x for x in hirq.walk(st) if x["k"] == "Path" and x["res"].get("name") == J and "local" in x["res"] and not hirq.in_log_macro(x)
+                     and not any(hirq.in_log_macro(a) for a in t.ancestors(x))]
+    if good and not skips and not late:
+        ctx.ok("STEP", fid, "draw counter %s = 0 before the loop, one unconditional `%s += 1` closing each iteration" % (J, J), hirq.loc(incs[0]))
+    else:
+        ctx.violation("STEP", fid, "draw counter step", hirq.loc(incs[0]) if incs else hirq.loc(loop),
+                      "the draw counter `%s` must start at 0 and advance by exactly 1 once per iteration, unconditionally and after its last use "
+                      "(definitions: %s; continue skipping it: %d; uses after the increment: %d): the j-th draw would not carry level j"
+                      % (J, [nf.nf(d)[:30] for d in defs], len(skips), len(late)))
+
+
 def _exit_aupper(ctx, facts, fid):
     fn = facts.fn(fid)
     t = tree_of(fn)
-    loops = [n for n in t.nodes if n["k"] == "Loop" and n["src"] in ("While", "Loop") and not hirq.in_log_macro(n)]
-    outer = [l for l in loops if not t.enclosing_loops(l)]
+    J = draw_counter(fn)
+    outer = [l for l in _draw_loops(fn) if any(c[0] == "cmp" and c[1] == "self.a_upper" and c[3] == J for (k_, nd) in loop_exits(fn, l)
+                                                for c in nf.all_conditions(t, nd, stop=l))]
     if len(outer) != 1:
         ctx.violation("EXIT", fid, "draw loop", hirq.loc(fn), "expected exactly one top-level draw loop, found %d" % len(outer))
         return 0
     loop = outer[0]
+    R = resolver_of(fn)
     n = 0
     for (kind, node) in loop_exits(fn, loop):
         # exits of inner loops are not exits of the draw loop
@@ -337,8 +392,20 @@ def _exit_aupper(ctx, facts, fid):
             continue
         n += 1
         conds = nf.all_conditions(t, node, stop=loop)
-        if kind in ("guard", "break") and len(conds) == 1 and conds[0][:3] == ("cmp", "self.a_upper", "<") and conds[0][3] == draw_counter(fn):
+        if kind in ("guard", "break") and len(conds) == 1 and conds[0][:3] == ("cmp", "self.a_upper", "<") and conds[0][3] == J:
             ctx.ok("EXIT", fid, "draw loop left when j > a_upper", hirq.loc(node))
+        elif kind == "iterator-exhausted":
+            # `for j in 0..N` with N the length of the histogram b (= sketch size): a_upper indexes b, so a_upper <= N-1 on every
+            # run that does not abort, and the counter reaching N implies j > a_upper. The counter must start at 0, step by 1
+            # and must not be shadowed or reassigned (a `for` variable is immutable).
+            fl = [f for f in for_loops(fn) if f["loop"] is loop]
+            rng = nf.nf(fl[0]["iter"], True, res=R) if fl else ""
+            sizes = ("self.hsketch.len()", "self.b.len()", "self.p.len()", "self.q.len()")
+            if fl and hirq.show_pat(fl[0]["pat"]) == J and rng in tuple("std::ops::Range{start:0, end:%s}" % z for z in sizes):
+                ctx.ok("EXIT", fid, "for %s in 0..m: the range end is the histogram length, reached only when %s > a_upper" % (J, J), hirq.loc(node))
+            else:
+                ctx.violation("EXIT", fid, "draw loop exit (%s)" % kind, hirq.loc(node),
+                              "the draw loop is a `for` over `%s`: it can stop before j > self.a_upper unless the range is 0..<sketch size>" % rng)
         else:
             ctx.violation("EXIT", fid, "draw loop exit (%s)" % kind, hirq.loc(node), "the draw loop may only be left when j > self.a_upper; this exit is taken when %s" % (conds[:2],))
     return n
@@ -431,14 +498,15 @@ def skip_rule(ctx, facts, fid):
         return
     last = max(w["sp"][1] for w in ws)
     bad = [n for n in user_nodes(fn) if not hirq.from_expansion(n) and n["sp"][1] < last and
-           (n["k"] in ("Ret", "Continue") or (n["k"] == "Match" and str(n.get("src", "")).startswith("TryDesugar")))]
-    bad = [n for n in bad if not (n["k"] == "Continue" and False)]
+           (n["k"] == "Ret" or (n["k"] == "Match" and str(n.get("src", "")).startswith("TryDesugar")))]
+    # a `continue` inside the draw loop of one item is not a way out of sketch: it is read as nesting of the rest of the
+    # iteration (hirq.Tree.conditions), so the guards of the register writes account for it
     if bad:
         for n in bad[:2]:
             ctx.violation("SKIP", fid, "item skipped", hirq.loc(n), "`%s` can leave %s before the item has been offered to the registers (conditions: %s)"
                           % (n["k"].lower() if n["k"] != "Match" else "?", short(fid), nf.all_conditions(t, n)[:2]))
     else:
-        ctx.ok("SKIP", fid, "no return / ? / continue before the last register write", hirq.loc(fn))
+        ctx.ok("SKIP", fid, "no return / ? before the last register write", hirq.loc(fn))
 
 
 def deleg_slice(ctx, facts, fid, finisher=None, rule="DELEG"):
